@@ -31,7 +31,12 @@ RULE = ("operator programs following the content-stream grammar of ISO 32000-1 F
         "Matrix/Resources), dyadic operands, random width tables incl. code 32 and codes outside the table, a share of "
         "operators with missing / ill-typed operands, serialised and split into 1-4 streams at token boundaries; a second "
         "'wild' stream (excess operands, unknown operators, text operators outside BT, q/Q inside BT, unknown resources) "
-        "is used for the model/implementation tie only.  A case is non-trivial when it is a distinct program that shows "
+        "is used for the model/implementation tie only.  Resources define colour spaces (aliases, ICCBased, CIE-based, "
+        "Separation, Indexed, DeviceN) under a small pool of names shared by all pages, forms and cases; 30% of the documents "
+        "have 2-3 pages with resources of their own (later pages may start with an operator lacking operands; pages may end "
+        "with left-over operands); every later page is also interpreted on its own first and must be reported identically "
+        "(page independence); a failure is re-evaluated in a fresh process, alone or after the documents interpreted before "
+        "it, so that the replay is self-contained.  A case is non-trivial when it is a distinct program that shows "
         ">= 2 glyphs and contains a positioning or spacing operator")
 TRUSTED_BASE = [
     "hand model lean/PdfVerif/Model/Interp.lean of PDFPageInterpreter / PDFTextDevice / LTChar (correspondence-checked "
@@ -51,6 +56,9 @@ ASSUMPTIONS = [
     "operands, balanced q/Q per stream/form, fonts/forms/colour spaces that exist, colour components in [0,1], "
     "forms inherit the caller's graphics state (a page whose Do reaches a form that shows text before any font was selected is outside the domain)",
     "graphicstate.ncolor None is read as 'initial colour'",
+    "cs/CS with a name that is neither a ColorSpace resource of the current content nor a device colour space is ignored "
+    "(a family name that needs parameters, and Pattern, are outside the domain); a form that is already being painted "
+    "is not painted again by pdfminer - the text model gives such a page no meaning (outside the domain)",
 ]
 STATEMENT_STATUS: Dict[str, str] = {
     "C05_program": "proved: for every env (fonts incl. Type 3 / CID / vertical, forms), CTM, resources, split into streams: "
@@ -58,8 +66,8 @@ STATEMENT_STATUS: Dict[str, str] = {
                    "form nesting <= fuel; forms inherit the caller's graphics state)",
     "C05_program_bytes": "proved: the same starting from the bytes of the streams (lexer model of C14 + assembler)",
     "C05_program_any_budget": "proved: the same at every larger nesting budget",
-    "C05_budget_suffices": "proved: with an acyclic (ranked) form table a budget of forms.length is never exhausted, for "
-                           "any program",
+    "C05_budget_suffices": "proved: a budget of forms.length + 1 is never exhausted, for any program and any form table "
+                           "(pdfminer ignores a form that is already being painted)",
     "C05_fuel_stable": "proved: raising the nesting budget never changes a result",
     "C05_step": "proved: one instruction preserves the simulation relation R and yields the same glyphs",
     "C05_forms": "proved: Interp.runForm = TextModel.runForm at every budget from related initial states: a form "
@@ -105,6 +113,50 @@ COLOUR = ("g", "G", "rg", "RG", "k", "K", "cs", "CS", "sc", "scn", "SC", "SCN")
 POSITION = ("Td", "TD", "Tm", "T*")
 SHOW = ("Tj", "TJ", "'", '"')
 DEVICE_CS = {"DeviceGray": 1, "DeviceRGB": 3, "DeviceCMYK": 4}
+CS_POOL = ["CS0", "CS1", "Cs2", "Sp"]          # resource names of colour spaces, shared by all pages / forms / cases
+KNOWN_FAMILY = ("DeviceGray", "DeviceRGB", "DeviceCMYK", "CalGray", "CalRGB", "Lab", "ICCBased", "Indexed", "Separation",
+                "DeviceN")
+NEEDS_PARAMS = ("CalRGB", "CalGray", "Lab", "Separation", "Indexed", "Pattern")
+
+
+def cs_resolve(res: dict, name: str):
+    """("defined", family, n) | ("undefined",) | ("outside",) - what `cs` / `CS` name."""
+    ent = (res.get("cspaces") or {}).get(name)
+    if ent is not None:
+        fam, n = ent[0], ent[1]
+        return ("defined", fam, n) if (fam in KNOWN_FAMILY and n in (1, 3, 4)) else ("outside",)
+    if name in DEVICE_CS:
+        return ("defined", name, DEVICE_CS[name])
+    return ("outside",) if name in NEEDS_PARAMS else ("undefined",)
+
+
+def initial_colour(fam: str, n: int):
+    if fam == "DeviceCMYK":
+        return (F(0), F(0), F(0), F(1))
+    return tuple([F(1) if fam in ("Separation", "DeviceN") else F(0)] * n)
+
+
+def gen_cspaces(rng, wild: bool) -> dict:
+    out = {}
+    names = list(CS_POOL)
+    rng.shuffle(names)
+    for nm in names[:rng.choice([0, 0, 1, 1, 2, 3])]:
+        r = rng.random()
+        if r < 0.35:
+            fam = rng.choice(list(DEVICE_CS))
+            out[nm] = [fam, DEVICE_CS[fam], "alias"]
+        elif r < 0.55:
+            out[nm] = ["ICCBased", rng.choice([1, 3, 4]), "icc"]
+        elif r < 0.7:
+            fam = rng.choice(["CalRGB", "CalGray", "Lab"])
+            out[nm] = [fam, {"CalRGB": 3, "CalGray": 1, "Lab": 3}[fam], "cie"]
+        elif r < 0.8:
+            out[nm] = ["Separation", 1, "sep"]
+        elif r < 0.88:
+            out[nm] = ["Indexed", 1, "indexed"]
+        else:
+            out[nm] = ["DeviceN", rng.choice([1, 3, 4, 2] if wild else [1, 3, 4]), "devn"]
+    return out
 PREDEFINED = [("DeviceGray", 1), ("CalRGB", 3), ("CalGray", 1), ("Lab", 3), ("DeviceRGB", 3), ("DeviceCMYK", 4),
               ("Separation", 1), ("Indexed", 1), ("Pattern", 1)]
 
@@ -224,7 +276,7 @@ class Gen:
             rng.shuffle(xn)
             for nm in xn[:rng.randint(1, 2)]:
                 xobjs[nm] = rng.randrange(max_form)
-        return {"fonts": fonts, "xobjs": xobjs}
+        return {"fonts": fonts, "xobjs": xobjs, "cspaces": gen_cspaces(rng, self.wild)}
 
     def args_for(self, op: str, res: dict, st: dict) -> list:
         rng = self.rng
@@ -250,7 +302,13 @@ class Gen:
             return [num(dy(rng, 0, 1, 8)) for _ in range(4)]
         if op in ("cs", "CS"):
             if self.wild and rng.random() < 0.3:
-                return [["/", rng.choice(["Pattern", "Lab", "Nope", "CalGray"])]]
+                return [["/", rng.choice(["Pattern", "Lab", "CalGray"])]]
+            r = rng.random()
+            own = list(res.get("cspaces") or {})
+            if r < 0.4 and own:
+                return [["/", rng.choice(own)]]               # a colour space of the current resources
+            if r < 0.65:
+                return [["/", rng.choice(CS_POOL + ["Nope"])]]   # maybe defined here, maybe only on another page / in the caller
             return [["/", rng.choice(list(DEVICE_CS))]]
         if op in DYN:
             n = st["ncs" if op in ("sc", "scn") else "scs"]
@@ -258,8 +316,8 @@ class Gen:
         if op == "Tf":
             fn = list(res["fonts"])
             name = rng.choice(fn)
-            if self.wild and rng.random() < 0.15:
-                name = "Nofont"
+            if self.wild and rng.random() < 0.25:
+                name = rng.choice(["Nofont", "F1", "F2", "Fa", "T1_0"])     # maybe only defined on another page / in the caller
             return [["/", name], num(rng.choice([10, 12, 8, F(15, 2), 1, 24, F(1, 2), 0, -10]))]
         if op in ("Tj", "'"):
             return [["s", gen_string(rng, self.cur_font(res, st))]]
@@ -278,8 +336,8 @@ class Gen:
         if op == "Do":
             xn = list(res["xobjs"])
             name = rng.choice(xn) if xn else "Nox"
-            if self.wild and rng.random() < 0.15:
-                name = "Nox"
+            if self.wild and rng.random() < 0.25:
+                name = rng.choice(["Nox", "X0", "Fm1", "Im2"])
             return [["/", name]]
         return []
 
@@ -396,8 +454,10 @@ class Gen:
                 st["ncs"] = {"g": 1, "rg": 3, "k": 4}[op]
             elif well and op in ("G", "RG", "K"):
                 st["scs"] = {"G": 1, "RG": 3, "K": 4}[op]
-            elif well and op in ("cs", "CS") and args[0][1] in DEVICE_CS:
-                st["ncs" if op == "cs" else "scs"] = DEVICE_CS[args[0][1]]
+            elif well and op in ("cs", "CS"):
+                rr = cs_resolve(res, args[0][1])
+                if rr[0] == "defined":
+                    st["ncs" if op == "cs" else "scs"] = rr[2]
             elif well and op == "Tf":
                 st["font"] = args[0][1]
         if not self.wild or rng.random() < 0.7:
@@ -420,15 +480,16 @@ class Gen:
         # bodies: a form without own resources is generated against the page's (it inherits the caller's; with
         # nesting the caller may be another form: then names may be undefined -> out of the domain, tie only)
         for i, fm in enumerate(self.forms):
-            r = fm["res"] or {"fonts": page_res["fonts"], "xobjs": {k: v for k, v in page_res["xobjs"].items() if v < i}}
+            r = fm["res"] or {"fonts": page_res["fonts"], "xobjs": {k: v for k, v in page_res["xobjs"].items() if v < i},
+                              "cspaces": page_res["cspaces"]}
             fm["prog"] = self.body(r, rng.randint(10, max(11, self.nops // 3)), True)
         prog = self.body(page_res, self.nops, False)
         x0, y0 = rng.choice([(0, 0), (0, 0), (-20, 10), (36, -18)])
         case = {"mediabox": [x0, y0, x0 + 612, y0 + 792], "rotate": rng.choice([0, 0, 0, 90, 180, 270]),
                 "fonts": self.fonts, "forms": self.forms, "res": page_res, "prog": prog, "trail": [],
                 "splits": [], "style": rng.randint(0, 3)}
-        if self.wild and rng.random() < 0.2:
-            case["trail"] = [num(3)]
+        if rng.random() < (0.2 if self.wild else 0.1):
+            case["trail"] = rng.choice([[num(3)], [num(7), num(F(1, 2))], [["/", "Zz"]], [num(1), num(0), num(0), num(1), num(5)]])
         nlex = len(lex_tokens(case["prog"], case["trail"], case["style"]))
         k = rng.choice([0, 1, 1, 2, 3])
         if nlex > 2:
@@ -436,6 +497,19 @@ class Gen:
             case["splitmode"] = [rng.randint(0, 2) for _ in case["splits"]]
         else:
             case["splitmode"] = []
+        # further pages of the same document: their own resources (the same pool of names, defined differently or
+        # not at all), interpreted by the same interpreter / resource manager / process after the first page
+        if rng.random() < 0.3:
+            case["more_pages"] = []
+            for _ in range(rng.choice([1, 1, 2])):
+                r2 = self.gen_res(nforms)
+                pg = {"res": r2, "prog": self.body(r2, max(6, self.nops // 3), False)}
+                if rng.random() < 0.4:
+                    # begin with an operator whose operands are missing: it must not find any left over by the page before
+                    op0 = rng.choice(["Tc", "Tw", "TL", "Tz", "g", "rg", "cm", "Ts"])
+                    pg["prog"] = [[op0, []]] + pg["prog"]
+                case["more_pages"].append(pg)
+        case["caching"] = rng.random() < 0.5
         if self.wild and rng.random() < 0.5:
             total = sum(len(b) for b in serialise(case["prog"], case["trail"], case["style"], case["splits"], case["splitmode"]))
             if total > 2:
@@ -587,10 +661,28 @@ def build_pdf(case: dict) -> bytes:
                  "Encoding": "Identity-H" if kind == "cidh" else "Identity-V", "DescendantFonts": [W.Ref(60 + i)]}
         objs[20 + i] = d
 
+    def cs_obj(ent):
+        fam, n, kind = ent
+        if kind == "alias":
+            return W.Name(fam.encode())
+        if kind == "icc":
+            objs[80 + len([k for k in objs if 80 <= k < 100])] = W.Stream({"N": n}, b"")
+            return [W.Name(b"ICCBased"), W.Ref(max(k for k in objs if 80 <= k < 100))]
+        if kind == "cie":
+            return [W.Name(fam.encode()), {"WhitePoint": [1, 1, 1]}]
+        if kind == "sep":
+            return [W.Name(b"Separation"), W.Name(b"Spot"), W.Name(b"DeviceGray"), {"FunctionType": 2, "Domain": [0, 1], "N": 1}]
+        if kind == "indexed":
+            return [W.Name(b"Indexed"), W.Name(b"DeviceRGB"), 1, W.HexStr(bytes.fromhex("000000ffffff"))]
+        return [W.Name(b"DeviceN"), [W.Name(b"C%d" % i) for i in range(n)], W.Name(b"DeviceRGB"),
+                {"FunctionType": 2, "Domain": [0, 1], "N": 1}]
+
     def res_obj(res):
         d: Dict[str, Any] = {"Font": {k: W.Ref(20 + v) for k, v in res["fonts"].items()}}
         if res["xobjs"]:
             d["XObject"] = {k: W.Ref(40 + v) for k, v in res["xobjs"].items()}
+        if res.get("cspaces"):
+            d["ColorSpace"] = {k: cs_obj(v) for k, v in res["cspaces"].items()}
         return d
 
     for i, fm in enumerate(case["forms"]):
@@ -601,14 +693,32 @@ def build_pdf(case: dict) -> bytes:
             d["Resources"] = res_obj(fm["res"])
         data = serialise(fm["prog"], [], case.get("style", 0), [], [])[0]
         objs[40 + i] = W.Stream(d, data)
-    streams = byte_streams(case)
-    page_extra = {"Rotate": case["rotate"]} if case.get("rotate") else {}
-    return W.simple_doc([list(streams)], resources=res_obj(case["res"]), mediabox=tuple(case["mediabox"]),
-                        extra_objs=objs, page_extra=page_extra)
+    # pages: 100.. contents, 200.. page objects
+    kids = []
+    pages = [(case["res"], byte_streams(case))] + [(pg["res"], serialise(pg["prog"], [], case.get("style", 0), [], []))
+                                                  for pg in case.get("more_pages", [])]
+    n = 100
+    for k, (res, streams) in enumerate(pages):
+        refs = []
+        for part in streams:
+            objs[n] = W.Stream({}, bytes(part))
+            refs.append(W.Ref(n))
+            n += 1
+        pg = {"Type": "Page", "Parent": W.Ref(2), "Contents": refs[0] if len(refs) == 1 else refs,
+              "Resources": res_obj(res), "MediaBox": list(case["mediabox"])}
+        if case.get("rotate"):
+            pg["Rotate"] = case["rotate"]
+        objs[200 + k] = pg
+        kids.append(W.Ref(200 + k))
+    objs[1] = {"Type": "Catalog", "Pages": W.Ref(2)}
+    objs[2] = {"Type": "Pages", "Kids": kids, "Count": len(kids)}
+    return W.build_pdf(objs, 1)
 
 
 def run_impl(case: dict):
-    """Returns ("ok", [glyph...]) or ("exc", "Type: msg").  glyph = dict of exact Fractions."""
+    """Returns ("ok", [glyph...], dep) or ("exc", "Type@where", None).  glyph = dict of exact Fractions.
+    `dep`: None, or (page index, field) when a page of a multi-page document is reported differently after the
+    pages before it than on its own (fresh resource manager, device and interpreter, run BEFORE the others)."""
     from pdfminer.converter import PDFPageAggregator
     from pdfminer.layout import LTChar, LTFigure
     from pdfminer.pdfdocument import PDFDocument
@@ -616,39 +726,68 @@ def run_impl(case: dict):
     from pdfminer.pdfpage import PDFPage
     from pdfminer.pdfparser import PDFParser
     pdf = build_pdf(case)
-    out: List[dict] = []
-    try:
-        doc = PDFDocument(PDFParser(io.BytesIO(pdf)))
-        rm = PDFResourceManager(caching=False)
+
+    def glyphs_of(lt):
+        out: List[dict] = []
+
+        def walk(c):
+            for o in c:
+                if isinstance(o, LTChar):
+                    col = o.graphicstate.ncolor
+                    if col is None:
+                        cc = None
+                    elif isinstance(col, (tuple, list)):
+                        cc = [F(x) for x in col]
+                    else:
+                        cc = [F(col)]
+                    out.append({"m": [F(x) for x in o.matrix], "adv": F(o.adv), "bbox": [F(x) for x in o.bbox],
+                                "size": F(o.size), "font": o.fontname, "col": cc})
+                elif isinstance(o, LTFigure):
+                    walk(o)
+        walk(lt)
+        return out
+
+    def interpret(pages):
+        rm = PDFResourceManager(caching=bool(case.get("caching", False)))
         dev = PDFPageAggregator(rm, laparams=None)
         it = PDFPageInterpreter(rm, dev)
-        for page in PDFPage.create_pages(doc):
+        res = []
+        for page in pages:
             it.process_page(page)
-            lt = dev.get_result()
+            res.append(glyphs_of(dev.get_result()))
+        return res
 
-            def walk(c):
-                for o in c:
-                    if isinstance(o, LTChar):
-                        col = o.graphicstate.ncolor
-                        if col is None:
-                            cc = None
-                        elif isinstance(col, (tuple, list)):
-                            cc = [F(x) for x in col]
-                        else:
-                            cc = [F(col)]
-                        out.append({"m": [F(x) for x in o.matrix], "adv": F(o.adv), "bbox": [F(x) for x in o.bbox],
-                                    "size": F(o.size), "font": o.fontname, "col": cc})
-                    elif isinstance(o, LTFigure):
-                        walk(o)
-            walk(lt)
+    try:
+        doc = PDFDocument(PDFParser(io.BytesIO(pdf)))
+        pages = list(PDFPage.create_pages(doc))
+        alone = {}
+        if len(pages) > 1:
+            # later pages on their own first: nothing of this document has been interpreted yet
+            for k in range(len(pages) - 1, 0, -1):
+                try:
+                    alone[k] = interpret([pages[k]])[0]
+                except RecursionError:
+                    raise
+                except Exception as e:  # noqa: BLE001
+                    alone[k] = "EXC:" + type(e).__name__
+        per_page = interpret(pages)
     except RecursionError:
-        return ("exc", "RecursionError")
+        return ("exc", "RecursionError", None)
     except Exception as e:  # noqa: BLE001
         import traceback
         tb = traceback.extract_tb(e.__traceback__)
         where = next((f"{os.path.basename(fr.filename)}:{fr.name}" for fr in reversed(tb) if "pdfminer" in fr.filename), "?")
-        return ("exc", f"{type(e).__name__}@{where}")
-    return ("ok", out)
+        return ("exc", f"{type(e).__name__}@{where}", None)
+    dep = None
+    for k, a in sorted(alone.items()):
+        if isinstance(a, str):
+            dep = (k, "exception alone: " + a)
+            break
+        d = seq_diff(a, per_page[k])
+        if d is not None:
+            dep = (k, d[1])
+            break
+    return ("ok", [g for pg in per_page for g in pg], dep)
 
 
 # ------------------------------------------------------------------------------------------ Python twin of the spec
@@ -725,9 +864,10 @@ class SpecMachine:
         g = {"ctm": page_ctm(self.case["mediabox"], self.case.get("rotate", 0)),
              "ncs": 1, "ncol": None, "scs": 1, "scol": None,
              "Tc": F(0), "Tw": F(0), "Th": F(100), "Tl": F(0), "font": None, "Tfs": F(0), "Tmode": 0, "Trise": F(0)}
-        if self.case.get("trail"):
-            raise Out("dangling operands")
-        self.stream(self.case["prog"], g, self.case["res"], 0)
+        self.active: List[int] = []
+        self.stream(self.case["prog"], dict(g), self.case["res"], 0)
+        for pg in self.case.get("more_pages", []):      # every page starts from the initial graphics state
+            self.stream(pg["prog"], dict(g), pg["res"], 0)
         return self.glyphs
 
     def stream(self, prog, g, res, depth):
@@ -774,12 +914,14 @@ class SpecMachine:
             k = "n" if op.islower() else "s"
             g[k + "cs"], g[k + "col"] = len(v), tuple(v)
         elif op in ("cs", "CS"):
-            if v[0] not in DEVICE_CS:
+            rr = cs_resolve(res, v[0])
+            if rr[0] == "outside":
                 raise Out("colour space")
-            k = "n" if op == "cs" else "s"
-            n = DEVICE_CS[v[0]]
-            g[k + "cs"] = n
-            g[k + "col"] = {1: (F(0),), 3: (F(0), F(0), F(0)), 4: (F(0), F(0), F(0), F(1))}[n]
+            if rr[0] == "defined":
+                k = "n" if op == "cs" else "s"
+                g[k + "cs"] = rr[2]
+                g[k + "col"] = initial_colour(rr[1], rr[2])
+            # an undefined name: the operator is ignored
         elif op in DYN:
             if any(x < 0 or x > 1 for x in v):
                 raise Out("colour range")
@@ -831,11 +973,16 @@ class SpecMachine:
         elif op == "Do":
             if v[0] not in res["xobjs"]:
                 raise Out("xobject resource")
-            fm = self.case["forms"][res["xobjs"][v[0]]]
+            fi = res["xobjs"][v[0]]
+            fm = self.case["forms"][fi]
+            if fi in self.active:
+                raise Out("form invokes itself")
+            self.active.append(fi)
             g2 = dict(g)                                 # q
             if fm["matrix"] is not None:
                 g2["ctm"] = mmul(tuple(F(x) for x in fm["matrix"]), g2["ctm"])   # Matrix cm
             self.stream(fm["prog"], g2, fm["res"] if fm["res"] is not None else res, depth + 1)
+            self.active.pop()
             # Q : g unchanged
         return g, txt
 
@@ -967,7 +1114,9 @@ def enc_res(res) -> str:
         return "inherit"
     f = ",".join("%s=%d" % (k.encode("latin-1").hex(), v) for k, v in res["fonts"].items()) or "-"
     x = ",".join("%s=%d" % (k.encode("latin-1").hex(), v) for k, v in res["xobjs"].items()) or "-"
-    return f"res {f} {x}"
+    c = ",".join("%s=%s:%d" % (k.encode("latin-1").hex(), v[0].encode("latin-1").hex(), v[1])
+                 for k, v in (res.get("cspaces") or {}).items()) or "-"
+    return f"res {f} {x} {c}"
 
 
 def enc_case(case: dict, mode: str) -> str:
@@ -993,6 +1142,12 @@ def enc_case(case: dict, mode: str) -> str:
     else:
         for s in split_token_streams(case):
             parts.append("stream " + s)
+    for pg in case.get("more_pages", []):
+        parts.append(f"page {enc_res(pg['res'])}")
+        if mode == "modelb":
+            parts.append("bstream " + (serialise(pg["prog"], [], case.get("style", 0), [], [])[0].hex() or "-"))
+        else:
+            parts.append("stream " + (enc_prog(pg["prog"]) or "-"))
     return " | ".join(parts)
 
 
@@ -1070,12 +1225,18 @@ def evaluate(case: dict, lean_spec=None):
     """Property on the implementation.  Returns (status, detail): status in ok|out|fail."""
     sp = lean_spec if lean_spec is not None else py_spec(case)
     if sp[0] != "ok":
+        if case.get("more_pages"):
+            im = run_impl(case)
+            if im[0] == "ok" and im[2] is not None:
+                return ("fail", ("page-dependence", im[2][0], None, None), im)
         return ("out", sp[1], None)
     im = run_impl(case)
     if im[0] == "exc":
         return ("fail", ("exception", im[1], None, None), im)
     d = seq_diff(im[1], sp[1])
     if d is None:
+        if im[2] is not None:
+            return ("fail", ("page-dependence", im[2][0], None, None), im)
         return ("ok", None, im)
     i, field = d
     return ("fail", (field, i, im[1][i] if i < len(im[1]) else None, sp[1][i] if i < len(sp[1]) else None), im)
@@ -1091,6 +1252,8 @@ def still_fails_like(case, sig_field) -> bool:
 def classify_field(field: str) -> str:
     if field == "exception":
         return "exception"
+    if field == "page-dependence":
+        return "page-dependence"
     if field.startswith("count"):
         return "count"
     if field.startswith("matrix") or field.startswith("bbox") or field == "size":
@@ -1138,7 +1301,7 @@ def shrink(case: dict, field: str) -> dict:
             rest = C.ddmin(rest, lambda p: attempt(with_form(pro + p)), 80)
             if attempt(with_form(pro + rest)):
                 best = with_form(pro + rest)
-    for key, val in (("rotate", 0), ("style", 0), ("mediabox", [0, 0, 612, 792])):
+    for key, val in (("more_pages", []), ("rotate", 0), ("style", 0), ("mediabox", [0, 0, 612, 792])):
         c = copy.deepcopy(best)
         c[key] = val
         if attempt(c):
@@ -1149,7 +1312,8 @@ def shrink(case: dict, field: str) -> dict:
 def check_case(ctx: C.Ctx, case: dict, in_domain_wanted: bool, batch: list, origin: str = "gen") -> None:
     """Run the implementation now; queue the Lean requests (answers are compared in `flush`)."""
     im = run_impl(case)
-    batch.append((case, im, in_domain_wanted, origin))
+    HISTORY.append(case)
+    batch.append((case, im, in_domain_wanted, origin, len(HISTORY) - 1))
 
 
 def flush(ctx: C.Ctx, batch: list) -> None:
@@ -1158,7 +1322,7 @@ def flush(ctx: C.Ctx, batch: list) -> None:
     model_out = spec_out = None
     if ctx.driver is not None:
         lines = []
-        for case, _, _, _ in batch:
+        for case, _, _, _, _ in batch:
             lines.append(enc_case(case, "model"))
             lines.append(enc_case(case, "spec"))
             lines.append(enc_case(case, "modelb"))
@@ -1166,7 +1330,7 @@ def flush(ctx: C.Ctx, batch: list) -> None:
         model_out = [parse_reply(r) for r in rep[0::3]]
         spec_out = [parse_reply(r) for r in rep[1::3]]
         modelb_out = [parse_reply(r) for r in rep[2::3]]
-    for k, (case, im, wanted, origin) in enumerate(batch):
+    for k, (case, im, wanted, origin, hidx) in enumerate(batch):
         psp = py_spec(case)
         lsp = spec_out[k] if spec_out is not None else None
         feats = case_features(case)
@@ -1181,6 +1345,10 @@ def flush(ctx: C.Ctx, batch: list) -> None:
         ctx.branch("streams:%d" % (len(case.get("splits", [])) + 1))
         if case.get("bytecuts"):
             ctx.branch("bytecuts")
+        ctx.branch("pages:%d" % (1 + len(case.get("more_pages", []))))
+        for r in [case["res"]] + [pg["res"] for pg in case.get("more_pages", [])] + [fm["res"] for fm in case["forms"] if fm["res"]]:
+            for ent in (r.get("cspaces") or {}).values():
+                ctx.branch("cspace:" + ent[0])
         ctx.branch("forms:%d" % len(case["forms"]))
         for f in case["fonts"]:
             ctx.branch("font:" + f.get("kind", "simple"))
@@ -1227,42 +1395,113 @@ def flush(ctx: C.Ctx, batch: list) -> None:
         # The Lean spec uses the matrix helpers regenerated from utils.py; when it and the twin (which shares no
         # code with the repo) differ, the twin is the oracle so that the edit is still reported with a replay.
         sp = lsp if (lsp is not None and lsp[0] != "err" and not twin_differs) else psp
-        if sp[0] != "ok":
+        dep = im[2] if im[0] == "ok" else None
+        fail = None
+        if sp[0] == "ok":
+            if im[0] == "exc":
+                fail = ("exception", im[1], None, None)
+            else:
+                d = seq_diff(im[1], sp[1])
+                if d is not None:
+                    i, field = d
+                    fail = (field, i, im[1][i] if i < len(im[1]) else None, sp[1][i] if i < len(sp[1]) else None)
+        if fail is None and dep is not None:
+            # what is reported for a page must not depend on the pages interpreted before it - whether or not the
+            # text model gives the pages a meaning
+            fail = ("page-dependence", dep[0], None, None)
+        if fail is None:
             continue
-        if im[0] == "exc":
-            fail = ("exception", im[1], None, None)
-        else:
-            d = seq_diff(im[1], sp[1])
-            if d is None:
-                continue
-            i, field = d
-            fail = (field, i, im[1][i] if i < len(im[1]) else None, sp[1][i] if i < len(sp[1]) else None)
         cls = classify_field(fail[0])
         seen = ctx.extra.setdefault("failures_by_class", {})
         seen[cls] = seen.get(cls, 0) + 1
         if seen[cls] > 3:
             continue                     # enough minimised witnesses of this kind; the count is in the evidence
-        small = shrink(case, fail[0])
-        st, det, _ = evaluate(small)
-        if st != "fail":
+        # A witness must fail in a process that has seen nothing else (that is what `--replay` gives): the
+        # implementation may carry state from one document to the next (caches, module-level tables).
+        history: List[dict] = []
+        alone = hermetic([], case)
+        if alone is not None and alone[0] == "fail" and classify_field(alone[1]) == cls:
+            small = shrink(case, fail[0])
+            st, det, _ = evaluate(small)
+            h2 = hermetic([], small) if st == "fail" else None
+            if not (st == "fail" and h2 is not None and h2[0] == "fail" and classify_field(h2[1]) == cls):
+                small, det = case, fail
+        else:
             small, det = case, fail
+            prior = HISTORY[:hidx]
+            k, found = 1, None
+            while prior and found is None:
+                cand = prior[-k:]
+                r = hermetic(cand, case)
+                if r is not None and r[0] == "fail" and classify_field(r[1]) == cls:
+                    found = cand
+                elif k >= len(prior):
+                    break
+                k = min(len(prior), k * 2)
+            if found is not None:
+                def hist_fails(hs):
+                    r = hermetic(hs, case)
+                    return r is not None and r[0] == "fail" and classify_field(r[1]) == cls
+                history = C.ddmin(found, hist_fails, 24) if len(found) > 1 else found
+                ctx.branch("failure-depends-on-earlier-documents")
+            else:
+                ctx.notes.append("a failure was not reproducible in a fresh process, neither alone nor after the "
+                                 "documents interpreted before it")
         field = det[0]
         what = {"exception": "interpreting a program of the text-model domain raises",
                 "count": "number of glyphs reported differs from the text model",
                 "position": "glyph matrix / box differs from the position the PDF text model assigns",
                 "adv": "glyph advance differs from the PDF text model",
                 "font": "glyph font differs from the PDF text model",
-                "colour": "glyph fill colour differs from the PDF text model"}[classify_field(field)]
+                "colour": "glyph fill colour differs from the PDF text model",
+                "page-dependence": "the glyphs reported for a page depend on the pages interpreted before it"}[classify_field(field)]
         tags = tags_for(small, det[1] if isinstance(det[1], int) else -1, field, det[2], det[3])
         tags["min_ops"] = [op for op, _ in small["prog"]]
+        if history:
+            # documents interpreted earlier in the same process; the replay runs them first
+            small = dict(small, history=history)
+            tags["needs_history"] = len(history)
+            what += " (only after other documents were interpreted in the same process)"
         if field == "exception":
             tags["exception"] = det[1]
-        ctx.fail(C.Failure(what, small, show_glyph(det[3]) if field != "exception" else "no exception",
-                           show_glyph(det[2]) if field != "exception" else det[1], tags))
+        if field == "page-dependence":
+            ctx.fail(C.Failure(what, small, "page %s reported as when interpreted on its own" % det[1],
+                               "differs after the pages before it", tags))
+        else:
+            ctx.fail(C.Failure(what, small, show_glyph(det[3]) if field != "exception" else "no exception",
+                               show_glyph(det[2]) if field != "exception" else det[1], tags))
     batch.clear()
 
 
 CLASSIFIERS: Dict[str, Any] = {}
+
+HISTORY: List[dict] = []      # every case the implementation has interpreted in this process, in order
+
+
+def hermetic(history: List[dict], case: dict, timeout: int = 120):
+    """Evaluate the property on `case` in a fresh interpreter process that first interprets `history`.
+    Returns (status, field) with status in ok|out|fail, or None when the helper could not run."""
+    import subprocess
+    import sys
+    code = ("import sys, json; sys.path.insert(0, %r); from harness.props import c05; c05._hermetic_main()"
+            % os.path.join(C.VERIF, "tools"))
+    try:
+        p = subprocess.run([sys.executable, "-c", code], input=json.dumps({"history": history, "case": case}).encode(),
+                           stdout=subprocess.PIPE, stderr=subprocess.PIPE, timeout=timeout,
+                           env=dict(os.environ, VERIF_REPO=C.REPO))
+        out = json.loads(p.stdout.decode().strip().splitlines()[-1])
+        return (out["status"], out.get("field"))
+    except Exception:  # noqa: BLE001
+        return None
+
+
+def _hermetic_main() -> None:
+    import sys
+    doc = json.loads(sys.stdin.read())
+    for h in doc["history"]:
+        run_impl(h)
+    st, det, _ = evaluate(doc["case"])
+    print(json.dumps({"status": st, "field": det[0] if st == "fail" else None}))
 
 
 # ------------------------------------------------------------------------------------------ entry points
@@ -1272,7 +1511,11 @@ def run_corpus(ctx: C.Ctx) -> None:
     for path in sorted(glob.glob(os.path.join(C.VERIF, "corpus", "C05", "*.json"))):
         with open(path) as fp:
             doc = json.load(fp)
-        check_case(ctx, doc["input"], True, batch, "corpus")
+        inp = dict(doc["input"])
+        for h in inp.pop("history", []):
+            run_impl(h)
+            HISTORY.append(h)
+        check_case(ctx, inp, True, batch, "corpus")
     flush(ctx, batch)
 
 
@@ -1282,6 +1525,10 @@ def replay(ctx: C.Ctx, doc) -> None:
     if isinstance(inp, dict) and "case" in inp:
         inp = inp["case"]
     if isinstance(inp, dict) and "prog" in inp:
+        inp = dict(inp)
+        for h in inp.pop("history", []):      # documents that have to be interpreted first in this process
+            run_impl(h)
+            HISTORY.append(h)
         check_case(ctx, inp, True, batch, "replay")
     flush(ctx, batch)
 
@@ -1360,6 +1607,21 @@ def directed_cases() -> List[dict]:
     c["prog"] = json.loads(json.dumps([["BT", []], ["Tf", [["/", "T3"], N(8)]], ["Tm", [N(1), N(0), N(0), N(1), N(50), N(600)]],
                                        ["Tc", [N(1)]], ["Tj", [S("ABC")]], ["ET", []]]))
     c["name"] = "type3-fontmatrix"
+    out.append(c)
+    # colour-space resources: a name is looked up in the resources of the content being interpreted
+    show = [["BT", []], ["Tf", [["/", "F1"], N(10)]], ["Tj", [S("A")]], ["ET", []]]
+    c = json.loads(json.dumps(base))
+    c["res"]["cspaces"] = {"CS1": ["DeviceCMYK", 4, "alias"], "Sp": ["Separation", 1, "sep"], "Cs2": ["ICCBased", 3, "icc"]}
+    c["forms"] = [{"matrix": None, "bbox": [0, 0, 100, 100], "res": {"fonts": {"F1": 0}, "xobjs": {}, "cspaces": {}},
+                   "prog": json.loads(json.dumps([["cs", [["/", "CS1"]]]] + show))}]
+    c["res"]["xobjs"] = {"X0": 0}
+    c["prog"] = json.loads(json.dumps([["g", [N(F(1, 2))]], ["Do", [["/", "X0"]]], ["cs", [["/", "CS1"]]]] + show +
+                                      [["cs", [["/", "Sp"]]]] + show + [["cs", [["/", "Cs2"]]], ["sc", [N(1), N(0), N(F(1, 4))]]] + show +
+                                      [["cs", [["/", "Nope"]]]] + show))
+    c["more_pages"] = [{"res": {"fonts": {"F1": 0}, "xobjs": {}, "cspaces": {"Sp": ["DeviceRGB", 3, "alias"]}},
+                        "prog": json.loads(json.dumps([["Tc", []], ["cs", [["/", "CS1"]]]] + show + [["cs", [["/", "Sp"]]]] + show))}]
+    c["trail"] = [N(7)]
+    c["name"] = "colourspace-resources-per-content"
     out.append(c)
     return out
 
